@@ -263,7 +263,8 @@ def run(chk, prog):
     chk.floor("M1", n1, 60)
     chk.floor("M2", n2, 40)
     rule_M5_pool_reset(chk, u)
-    from .c12_m3 import rule_M3, rule_M4
+    from .c12_m3 import rule_M3, rule_M4, rule_M6
+    chk.floor("M6", rule_M6(chk, u), 4)
     chk.floor("M3", rule_M3(chk, prog), 10)
     chk.floor("M4", rule_M4(chk, prog), 6)
     # fixture: a class that must be reported, and a twin that must not
